@@ -71,7 +71,7 @@ class Entry(object):
 class PCABook(Machine):
     PROPERTY = "C10"
     NAME = "pca_bookkeeping"
-    BUDGET = {"quick": {"runs": 12000, "wall": 75, "digests": 24, "block": 50},
+    BUDGET = {"quick": {"runs": 18000, "wall": 75, "digests": 24, "block": 50},
               "thorough": {"runs": 250000, "wall": 840, "digests": 128, "block": 200}}
     LEVEL = {"quick": "exploration", "thorough": "exploration"}
     RULE = ("seeded histories on PCA models (vector-backed, PointCloud-, Image- and MaskedImage-backed; n on both "
@@ -89,7 +89,8 @@ class PCABook(Machine):
     REQUIRED_PROBES = ("branch_d_lt_n", "branch_d_ge_n", "float_selects_1", "float_selects_middle",
                        "float_selects_all", "trim_to_1", "trim_after_trim", "noop_setter", "copy_diverged",
                        "out_of_range_int", "out_of_range_float", "all_kept_reconstruct_exact",
-                       "object_backed", "uncentred", "max_n_components_at_build", "tiny_data_scale", "huge_data_scale", "integer_dtype_data")
+                       "object_backed", "uncentred", "max_n_components_at_build", "tiny_data_scale", "huge_data_scale", "integer_dtype_data", "mean_much_larger_than_spread",
+                       "earlier_results_still_valid")
 
     @classmethod
     def swarm(cls, rng, tier):
@@ -106,7 +107,7 @@ class PCABook(Machine):
         n = rng.randint(3, 14)
         return {"kind": kind, "centred": centred, "n": n, "d": d, "seed": rng.getrandbits(32),
                 "inplace": rng.random() < 0.5, "max_n": rng.choice([0, 0, 0, 1, 2, 3, 5]),
-                "scale_exp": rng.choice([-6, -3, 0, 0, 0, 3, 6]), "int_data": int(rng.random() < 0.15),
+                "scale_exp": rng.choice([-6, -3, 0, 0, 0, 3, 6]), "int_data": int(rng.random() < 0.15), "offset_exp": rng.choice([0, 0, 0, 3, 5]),
                 "steps": rng.randint(3, 16 if tier == "quick" else 40)}
 
     @classmethod
@@ -155,7 +156,13 @@ class PCABook(Machine):
             # integer-valued samples (e.g. 8-bit pixel data) handed over as an integer-dtype matrix
             self.X = np.round(self.X * (8.0 if cfg.get("scale_exp", 0) == 0 else 1.0))
             self.ctx.probe("integer_dtype_data")
-        self.scale = float(np.abs(self.X).max())
+        off = cfg.get("offset_exp", 0)
+        if off and self.centred and not self.int_data:
+            # observations far from the origin compared with their spread (map coordinates, timestamps, ...)
+            self.X = self.X + (10.0 ** off) * float(np.abs(self.X).std()) * np.where(np.arange(d) % 2, 1.0, -0.7)
+            self.ctx.probe("mean_much_larger_than_spread")
+        self.offset = off if (off and self.centred and not self.int_data) else 0
+        self.scale = float(np.abs(self.X - (self.X.mean(0) if self.centred else 0)).max())
         if cfg.get("scale_exp", 0) < 0:
             ctx0 = self.ctx
             ctx0.probe("tiny_data_scale")
@@ -383,7 +390,7 @@ class PCABook(Machine):
         mu = w.vec(m.mean())
         exp_mu = self.X.mean(0) if self.centred else np.zeros(d)
         err = float(np.abs(mu - exp_mu).max())
-        ctx.require(err <= 1e-9 * self.scale, "identities", "mean_wrong", lambda: "err %.3g" % err)
+        ctx.require(err <= 1e-9 * self.scale * (10.0 ** self.offset), "identities", "mean_wrong", lambda: "err %.3g" % err)
         # fresh model with that many components
         fresh = w.build(self.X, self.centred, False, k)
         fresh.n_active_components = a
@@ -450,6 +457,13 @@ class PCABook(Machine):
         ctx.require(float(np.abs(C @ po).max()) < 1e-8 * sc, "identities", "project_out_not_orthogonal")
         ctx.require(float(np.abs(po - resid).max()) < 1e-8 * sc, "identities", "project_out_is_not_residual")
         ctx.require(np.array_equal(w.vec(xo), x), "identities", "query_modified_input")
+        held = getattr(e, "held", None)
+        if held is not None:
+            for name, obj, snap in held:
+                ctx.require(np.array_equal(w.vec(obj), snap), "identities", "earlier_result_overwritten_by_later_call_" + name,
+                            lambda: "the %s returned by an earlier call changed after later calls on the same model" % name)
+            ctx.probe("earlier_results_still_valid")
+        e.held = [("project_out", po_obj, po.copy()), ("reconstruct", rec, rv.copy()), ("instance", inst, w.vec(inst).copy())]
         if a == self.r and k == self.r:
             ctx.probe("all_kept_reconstruct_exact")
             R = np.vstack([w.vec(m.reconstruct(w.obj(s))) for s in self.X])
